@@ -498,7 +498,7 @@ def run_desc(ml, rd):
         grid = gb.rectangular_grid(gp["r1"], gp["r2"], padding=gp["pad"], spacing=gp["s"], dtype=gp["dtype"])
     except Exception as e:  # noqa
         return None, None, {"skipped": f"grid construction raised {e!r} (judged by the grid cases)"}
-    if grid.shape[0] == 0 or grid.shape[0] > 700:
+    if grid.shape[0] == 0 or grid.shape[0] > 400:
         return None, None, {"skipped": "empty or oversized grid"}
     g64 = np.asarray(grid, dtype=np.float64)
     ens = build(ml, rd)
